@@ -545,11 +545,11 @@ PROPERTIES["C12"]["explanation"] += (" Source level (P12): " + PIPE_EXPL + "the 
 PROPERTIES["C12"]["bounds"]["quick"] += "; source level: the two-statement two-package programs x {dependency excluded, importer excluded}"
 
 PROPERTIES["C01"]["runs"] += [
-    dict(pkg="accumulation", files=PIPE_FILES, entry="Harness_P01", name="_parallel_assignment_two_params", quick=dict(params=dict(STMTS=2, COMPOUND=5, SIMPLE=11, CALLEES=11)),
-         thorough=dict(params=dict(STMTS=3, COMPOUND=4, SIMPLE=11, CALLEES=11)), args=dict(sample_every=61, max_samples=12)),
+    dict(pkg="accumulation", files=PIPE_FILES, entry="Harness_P01", name="_parallel_assignment_two_params", quick=dict(params=dict(STMTS=2, COMPOUND=5, SIMPLE=11, CALLEES=13)),
+         thorough=dict(params=dict(STMTS=3, COMPOUND=4, SIMPLE=11, CALLEES=13)), args=dict(sample_every=61, max_samples=12)),
 ]
-PROPERTIES["C01"]["bounds"]["quick"] += "; the two-statement programs with parallel assignments (`x, y = y, x`, `x, y = nil, x`) two-parameter callees and a recursive callee (1186)"
-PROPERTIES["C01"]["bounds"]["thorough"] += "; the three-statement programs with parallel assignments, two-parameter callees and a recursive callee"
+PROPERTIES["C01"]["bounds"]["quick"] += "; the two-statement programs with parallel assignments (`x, y = y, x`, `x, y = nil, x`) two-parameter callees, a recursive callee and two-result callees (1288)"
+PROPERTIES["C01"]["bounds"]["thorough"] += "; the three-statement programs with parallel assignments, two-parameter, recursive and two-result callees"
 
 PROPERTIES["C20"]["runs"] += [dict(pkg="accumulation", files=PIPE_FILES, entry="Harness_P20", args=dict(sample_every=5, max_samples=20))]
 PROPERTIES["C20"]["explanation"] += (" Source level (P20): " + PIPE_EXPL + "plus, for this harness, the package's REAL SSA (ssa.NewProgram / CreatePackage / Build on the type-checked AST), the REAL inferContracts on every eligible function, "
